@@ -863,6 +863,16 @@ class Exec:
         if k == 'binop':
             return self.binop(rv[1], self.operand(st, fid, rv[2]), self.operand(st, fid, rv[3]))
         if k == 'unop':
+            if rv[1] == 'PtrMetadata':
+                # length of a slice reference whose referent is a concrete array
+                r = self.operand(st, fid, rv[2])
+                v, n = r, 0
+                while isinstance(v, Ref) and n < 6:
+                    v = self.read(st, v.fid, v.place)
+                    n += 1
+                if isinstance(v, Agg) and v.kind == 'array':
+                    return self.const_int(len(v.fields), 'usize')
+                raise NotEncoded(f'PtrMetadata of {r!r}')
             return self.unop(rv[1], self.operand(st, fid, rv[2]))
         if k == 'ref':
             p = rv[1]
